@@ -34,7 +34,7 @@ ASSUMPTIONS = [
 REACH = {
     t: ["combos_all_48", "rstack_midstream", "error_frame", "ack_nak_rst_no_upward",
         "wraps_1000", "pending_send_variant", "accepted", "dup_retx_acked", "out_of_seq_naked",
-        "several_frames_in_one_read"]
+        "several_frames_in_one_read", "frames_after_host_side_failure"]
     for t in ("quick", "thorough")
 }
 SHARD_TIMEOUT = {"quick": 600, "thorough": 2400}
@@ -100,6 +100,8 @@ def shards(tier, seed):
         out.append({"part": "walk", "n": wl, "seed": seed * 1000 + w, "pending": w % 2 == 1})
     for start in range(8):
         out.append({"part": "multi", "start": start, "acks": [0, 5], "seed": seed, "n": 400 if tier == "quick" else 4000})
+    for k in range(2 if tier == "quick" else 8):
+        out.append({"part": "after_failure", "seed": seed * 10 + k, "n": 40 if tier == "quick" else 300})
     return out
 
 
@@ -247,6 +249,57 @@ def part_multi(desc) -> Acc:
     return acc
 
 
+def part_after_failure(desc) -> Acc:
+    """The receive rule does not depend on the state of the host's own sender: after the host gave up on
+    a send of its own (retry budget exhausted by timeouts or NAKs) every frame is still treated by the
+    rule - in particular an ERROR frame still reports its code upward, an RSTACK restarts numbering."""
+    acc = Acc()
+    rnd = random.Random(desc["seed"])
+    syms = alphabet([0, 5]) + [("ERROR", c) for c in (0x00, 0x51, 0x80, 0xFF)] + [("RSTACK", c) for c in (0x00, 0x0B, 0xFF)]
+
+    async def main(loop):
+        for how in ("timeouts", "naks"):
+            for start in (0, 3):
+                for tail in [[("ERROR", 0x80)], [("ERROR", 0x00)], [("ERROR", 0x51), ("ERROR", 0x52)], [("D", start, 0, 0), ("ERROR", 0xFF)],
+                             [("RSTACK", 0x0B), ("D", 0, 0, 0)], [("A", 1), ("N", 0), ("ERROR", 0x53)]] + \
+                        [[rnd.choice(syms) for _ in range(4)] for _ in range(desc["n"])]:
+                    case = {"part": "after_failure", "how": how, "start": start, "seq": [list(x) for x in tail]}
+                    acc.case()
+                    st = Stepper(acc)
+                    ok = all(st.step(("D", i, 0, 0), 0xFFFF, case) for i in range(start))
+                    if not ok:
+                        continue
+                    task = asyncio.ensure_future(st.proto.send_data(b"host-frame"))
+                    await asyncio.sleep(0)
+                    for _ in range(12):
+                        if task.done():
+                            break
+                        if how == "naks":
+                            # reject whatever the host has outstanding (its frame number is 0)
+                            st.proto.data_received(R.encode_nak(0))
+                            await asyncio.sleep(0.01)
+                        else:
+                            await asyncio.sleep(3.3)
+                    try:
+                        await asyncio.wait_for(task, 40)
+                    except BaseException:  # noqa: BLE001
+                        pass
+                    if not any(e[0] == "up_reset" for e in st.log):
+                        acc.notes.append("host-side failure was not reached in the after-failure scenario")
+                        continue
+                    acc.hit("frames_after_host_side_failure")
+                    tag = 100
+                    for sym in tail:
+                        tag += 1
+                        if not st.step(sym, tag, case):
+                            break
+                    acc.nontrivial(("after_failure", how, start, tuple(tail)))
+
+    vloop.run(main)
+    acc.sample({"after_host_side_failure": True, "examples": [["ERROR", 0x80], ["RSTACK", 0x0B]]})
+    return acc
+
+
 def run_seq(acc: Acc, start: int, seq, case, combos: set, stats):
     st = Stepper(acc)
     for i in range(start):
@@ -373,6 +426,8 @@ def run_shard(desc) -> Acc:
     logmode.apply(desc)
     if desc["part"] == "multi":
         return part_multi(desc)
+    if desc["part"] == "after_failure":
+        return part_after_failure(desc)
     if desc["part"] == "exh":
         acc = part_exh(desc, alphabet(desc["acks"]), desc["depth"], desc.get("first"))
     elif desc["part"] == "exh_small":
